@@ -77,6 +77,10 @@ def mkops(seq):
             out.append((["FL %d" % t[1], "P @%d %d %d" % (t[1], t[2], t[3]), "REOPEN %d" % t[1]], "P %d %d %d" % (t[1], t[2], t[3])))
         elif t[0] == "F":
             out.append((["FL %d" % t[1], "FA @%d %d %d" % (t[1], t[2], t[3]), "REOPEN %d" % t[1]], None))
+        elif t[0] == "L":
+            out.append((["FL %d" % t[1]], None))
+        elif t[0] == "O":
+            out.append((["REOPEN %d" % t[1]], None))
     return out
 
 
@@ -101,6 +105,11 @@ def corpus(bs):
         [("Z", 0, 12 * bs), ("F", 0, 0, 11), ("W", 0, 6 * bs, bs, 0x43), ("P", 0, 6, 6), ("F", 0, 6, 6), ("W", 0, 7 * bs, bs, 0x44), ("R", 0, 0, 12 * bs),
          ("W", 0, 6 * bs, 10, 0x45), ("R", 0, 0, 12 * bs)],
         [("Z", 0, 20 * bs), ("F", 0, 2, 15), ("W", 0, 8 * bs, 2 * bs, 0x46), ("P", 0, 8, 9), ("F", 0, 8, 9), ("W", 0, 9 * bs, bs, 0x47), ("W", 0, 8 * bs, bs, 0x48), ("R", 0, 0, 20 * bs)],
+        # truncation into the middle of the block that sits CLEAN in the handle's buffer (after a flush / after reading it), the
+        # buffer then moves elsewhere, the file grows again: the cut-off bytes must read as zeros
+        [("W", 0, 0, 3 * bs, 0x65), ("L", 0), ("R", 0, 2 * bs, 10), ("Z", 0, 2 * bs + 476), ("R", 0, 0, bs), ("Z", 0, 3 * bs), ("R", 0, 2 * bs, bs)],
+        [("W", 1, 0, 2 * bs + 100, 0x66), ("L", 1), ("Z", 1, bs + 7), ("R", 1, 0, 10), ("W", 1, 2 * bs, 5, 0x67), ("R", 1, bs, bs + 5)],
+        [("W", 0, 0, 2 * bs, 0x68), ("O", 0), ("R", 0, bs, bs), ("Z", 0, bs + 1), ("O", 0), ("Z", 0, 2 * bs), ("R", 0, bs, bs)],
         [("W", 0, 0, 30 * bs, 0x79), ("P", 0, 0, 20)], [("W", 0, 0, 30 * bs, 0x7A), ("P", 0, 12, 12)], [("W", 0, 0, 30 * bs, 0x7B), ("P", 0, 11, 12)],
     ]
 
